@@ -249,6 +249,10 @@ func (dc *TraditionalDnsConn) setReadLoopDeadline(answered int) {
 		dc.waitingResp.Store(true)
 		dc.c.SetReadDeadline(time.Now().Add(waitingReplyTimeout))
 	} else {
+		// Nobody is waiting. Clear the flag together with the deadline: an
+		// exchange that was answered before it armed the waiting deadline may
+		// have left it set, and the next exchange would then not re-arm.
+		dc.waitingResp.Store(false)
 		dc.c.SetReadDeadline(time.Now().Add(dc.idleTimeout))
 	}
 }
